@@ -1,7 +1,6 @@
 import UmModel.Bytes
 import UmModel.Crc16
 import UmModel.Proto
-import UmGen.RespCfg
 import UmGen.CmdTables
 import UmGen.HostileCfg
 /-!
@@ -34,7 +33,7 @@ open Um
 /-! ## configuration -/
 
 structure Cfg where
-  /-- F7 fix: terminators are checked (`Um.Gen.Resp.strictTerm`) -/
+  /-- F7 fix: terminators are checked (`Um.Gen.Hostile.strictTerm`) -/
   strict : Bool
   /-- F4 fix: `Vec::with_capacity(min(array_size, remaining))` -/
   capRemaining : Bool
@@ -46,18 +45,18 @@ structure Cfg where
 
 /-- the parser variant found in /repo/src on this run -/
 def Cfg.cur (elemSize : Nat) : Cfg :=
-  ⟨Um.Gen.Resp.strictTerm, Um.Gen.Hostile.capRemaining, Um.Gen.Hostile.maxNesting, elemSize⟩
+  ⟨Um.Gen.Hostile.strictTerm, Um.Gen.Hostile.capRemaining, Um.Gen.Hostile.maxNesting, elemSize⟩
 
 def isizeMax : Nat := 9223372036854775807
 def usizeMax : Nat := 18446744073709551615
 def usizeMod : Nat := 18446744073709551616
 
-def tError : UInt8 := Um.Gen.Resp.tError
-def tSimple : UInt8 := Um.Gen.Resp.tSimple
-def tInteger : UInt8 := Um.Gen.Resp.tInteger
-def tBulk : UInt8 := Um.Gen.Resp.tBulk
-def tArr : UInt8 := Um.Gen.Resp.tArr
-def LF : UInt8 := Um.Gen.Resp.LF
+def tError : UInt8 := Um.Gen.Hostile.tError
+def tSimple : UInt8 := Um.Gen.Hostile.tSimple
+def tInteger : UInt8 := Um.Gen.Hostile.tInteger
+def tBulk : UInt8 := Um.Gen.Hostile.tBulk
+def tArr : UInt8 := Um.Gen.Hostile.tArr
+def LF : UInt8 := Um.Gen.Hostile.LF
 def CR : UInt8 := 13
 
 /-! ## `RespIndex` -/
